@@ -250,6 +250,9 @@ class SymBool:
     def __init__(self, t):
         self.t = t
 
+    def __hash__(self):
+        return self.t.hash()
+
     def __bool__(self):
         return ctx().branch(self.t)
 
@@ -291,7 +294,7 @@ class SymBool:
     def __invert__(self):
         return SymBool(z3.Not(self.t))
 
-    __hash__ = None
+    # (hashable: see __hash__ above)
 
     def __repr__(self):
         return f'SymBool({self.t})'
@@ -335,6 +338,11 @@ class SymReal:
     def __init__(self, t, sz=1):
         self.t = t
         self.sz = sz
+
+    def __hash__(self):
+        # hashable so that memoising code (functools.lru_cache, dict keys) can take proxies: equal terms hash alike, and the equality test
+        # that follows a hash match is the symbolic == (a fork decided by the solver)
+        return self.t.hash()
 
     # arithmetic --------------------------------------------------------------------------------
     def _bin(self, o, f):
@@ -499,7 +507,7 @@ class SymReal:
     def __ne__(self, o):
         return self._cmp(o, lambda a, b: a != b)
 
-    __hash__ = None
+    # (hashable: see __hash__ above)
 
     # conversions -------------------------------------------------------------------------------
     def __float__(self):
